@@ -689,6 +689,11 @@ def _eval_reader(ctx, case):
                 return
             if ri[0] != rm[0]:
                 same = False
+            elif ri[0] == "E" and ri != rm:
+                # both refuse the read-mode operation, with different exception classes (seek_atom(-3): ValueError from
+                # `file.seek` today; IndexError in benign change C13-3): the round-trip property names no class
+                ctx.count(f"reader-op-refusal-class-differs-from-model:{ri[1]}-vs-{rm[1]}")
+                same = True
             elif ri[0] == "P":
                 same = G.same_rec(ri[1], rm[1])
             elif ri[0] == "L":
